@@ -334,7 +334,13 @@ def drainLoop (m : Machine) (u : UEnv) : Nat → St → St
       let s := transientLoop (hooksFlagged u m) .sync m u m.maxIterations s
       if s.err.isSome then s else drainLoop m u budget s
 
-def drainFlagged (m : Machine) (u : UEnv) (s : St) : St := drainLoop m u m.maxIterations s
+/-- `_process_event_queue()` entered with `_is_processing` clear: `budget = limit + len(self._event_queue)`
+    is computed ONCE, when the drain starts — the events already queued then (accepted from outside by
+    `send()` / `send_events()`, which append BEFORE calling it, raised during `start()`, or left over by a
+    send that raised) do not count towards the ceiling, only what is enqueued while draining does -/
+def drainBudget (m : Machine) (s : St) : Nat := m.maxIterations + s.queue.length
+
+def drainFlagged (m : Machine) (u : UEnv) (s : St) : St := drainLoop m u (drainBudget m s) s
 
 def sndUnflagged (m : Machine) (u : UEnv) : Snd := fun e s =>
   if s.status = "running" then drainFlagged m u { s with queue := s.queue ++ [⟨e, false⟩] } else s
